@@ -505,14 +505,46 @@ class ArrayBase(ParsableBase, MutableSequence, Serializable):
     def __getitem__(self, index):
         return self._items[index]
 
+    def _replace_items(self, items):
+        items_size = sum(self.param.get_item_size(item) for item in items)
+
+        if items_size < self.param.min_byte_num:
+            raise NotEnoughData(self.param.min_byte_num)
+        if items_size > self.param.max_byte_num:
+            raise TooMuchData(self.param.max_byte_num)
+
+        self._items = items
+        self._items_size = items_size
+
     def __delitem__(self, index):
+        if isinstance(index, slice):
+            items = list(self._items)
+            del items[index]
+            self._replace_items(items)
+            return
+
         self._update_items_size(del_item=self._items[index])
 
         del self._items[index]
 
     def __setitem__(self, index, value):
+        if isinstance(index, slice):
+            items = list(self._items)
+            items[index] = value
+            self._replace_items(items)
+            return
+
         self._update_items_size(del_item=self._items[index], insert_item=value)
         self._items[index] = value
+
+    def extend(self, values):
+        self._replace_items(self._items + list(values))
+
+    def clear(self):
+        self._replace_items([])
+
+    def reverse(self):
+        self._items.reverse()
 
     def __str__(self):
         return str(self._items)
